@@ -88,6 +88,17 @@ theorem noise_invariance (O : Oracles) (qy : Query) (joined joined' : List FileL
   rw [hf, hj] at h1
   exact h1.trans h2.symm
 
+/-- the same when whole files appear or disappear that hold nothing but noise (or nothing at all): only the
+non-empty denoised files matter -/
+theorem noise_invariance_any_files (O : Oracles) (qy : Query) (joined joined' : List FileLine)
+    (files files' : List (List FileLine)) (hf : dropEmpty (files.map denoise) = dropEmpty (files'.map denoise))
+    (hj : denoise joined = denoise joined') :
+    SameOut (runBatch O qy joined files none) (runBatch O qy joined' files' none) := by
+  have h1 := runBatch_noise O qy joined files
+  have h2 := runBatch_noise O qy joined' files'
+  rw [← runBatch_dropEmpty O qy (denoise joined) (files.map denoise), hf, hj, runBatch_dropEmpty] at h1
+  exact h1.trans h2.symm
+
 /-- inserting one noise line at any position of any file is such a difference -/
 theorem insert_one_noise_line (pre post : List FileLine) (x : FileLine) (hx : isNoise x = true) :
     denoise (pre ++ x :: post) = denoise (pre ++ post) := by
